@@ -158,7 +158,8 @@ ExitViol(st, e) ==
   \cup (IF ok /\ st.faulted THEN {V("C04", "FailedStepButRunReportedSuccess", "", e)} ELSE {})
   \cup (IF ~ok /\ ~st.faulted /\ st.irrmode = "ok" /\ ~e.timed_out /\ ~(Has(st.expect, "foreign") /\ st.expect.foreign)
         THEN {V(st.expect.prop, "RunFailedWithoutAnyFault",
-                IF e.panicked THEN "a task panicked" ELSE IF st.repeat THEN "repeat run (read-back of the installed state)" ELSE "exit " \o ToString(e.code), e)}
+                IF e.panicked THEN "a task panicked" ELSE IF st.repeat THEN "repeat run (read-back of the installed state)"
+                ELSE IF st.style # "" THEN "replies re-serialised: " \o st.style ELSE "exit " \o ToString(e.code), e)}
         ELSE {})
 
 EndViol(st, e) ==
